@@ -136,7 +136,7 @@ def judge(out, prog, it, oc, exc, ctx):
         if B is not None:
             Bd = B[5]
             allowed = [strip(Bd)] if (priv(Bd) or P is None) else [strip(P), strip(Bd)]
-            if P is not None and priv(Bd) and S.raises.get(Bd[1]) in ('A2', 'KI2', 'SE2'):
+            if P is not None and priv(Bd) and S.raises.get(Bd[1]) in ('A2', 'KI2', 'SE2', 'A0'):
                 # body and a child both fail with privileged exceptions: the statement allows either; usim keeps the
                 # body's only if its class is *exactly* one of the three (children are tested with isinstance)
                 allowed = [strip(Bd), strip(P)]
